@@ -5210,7 +5210,7 @@ class State:
                  otherwise ``False``.
         """
         try:
-            self.verify_runout_count_selection(player_index)
+            self.verify_runout_count_selection(runout_count, player_index)
         except (ValueError, UserWarning):
             return False
 
@@ -5245,7 +5245,10 @@ class State:
         :raises ValueError: If the runout-count selection cannot be
                             done.
         """
-        player_index = self.verify_runout_count_selection(player_index)
+        player_index = self.verify_runout_count_selection(
+            runout_count,
+            player_index,
+        )
 
         assert self.runout_count_selector_statuses[player_index]
 
